@@ -228,7 +228,9 @@ CLAIMS["C15"] = dict(
           "tests, 3x5 fit coefficients) and its refinement is exactly one Halley step on f = the sector's channel of the crate's own "
           "oklab_to_linear_srgb(1, S a, S b) with f', f'' = its symbolic derivatives; find_cusp, ST::mid, ST::from, toe, toe_inv, "
           "ChromaValues::from_normalized equal the published formulas and toe_inv.toe = id; the Okhsl saturation curve and its inverse are "
-          "mutual inverses on both pieces, meet at (C_mid, 0.8) and map [0, C_max] onto [0, 1]; find_gamut_intersection reuses the 15 "
+          "mutual inverses on both pieces, meet at (C_mid, 0.8) and map [0, C_max] onto [0, 1]; find_gamut_intersection = Ottosson's triangle "
+          "intersection through the cusp plus, in the upper half, one Halley step per channel on f(t) = channel(oklab_to_linear_srgb(L0(1-t)+tL1, "
+          "tC1 a, tC1 b)) - 1 whose hand-expanded f', f'' equal the symbolic derivatives, with u < 0 -> FLT_MAX and the minimum over channels; it reuses the 15 "
           "matrix literals of oklab_to_linear_srgb; LuvBounds::from_lightness = the HSLuv reference bound (M, kappa, epsilon, six lines), "
           "intersection length formula, minimum over lines; hexcone: on all 26 orderings in-gamut RGB gives S in [0,1], V = max channel, "
           "L = mid-range (Rgb<->Hsv/Hsl/Hwb formulas themselves: C02/C17). These are necessary conditions of the property."),
